@@ -177,7 +177,7 @@ def build(p):
             E.vsleep(max(inputs[i - 1].get("at", 0) - E.now(), 0))
             complete(i)
 
-        E.emit("Cfg", s=op, a=len(pos), xs=list(pos))
+        E.emit("Cfg", s=op, a=len(pos), xs=list(pos), b=1 if (p.get("nest") and op in BOOL_OPS) else 0)
         for i in sorted(set(pos)):       # already-done inputs, in argument order
             if inputs[i - 1].get("pre") and inputs[i - 1].get("kind", 1):
                 complete(i)
